@@ -320,7 +320,8 @@ func (t *rtpDownTrack) GetMaxBitrate() (uint64, int, int) {
 	now := rtptime.Jiffies()
 	layer := t.getLayerInfo()
 	r := t.maxBitrate.Get(now)
-	if r == ^uint64(0) {
+	if r == ^uint64(0) || r == 0 {
+		// no recent receiver report, or none yet
 		r = 512 * 1024
 	}
 	rr := t.maxREMBBitrate.Get(now)
